@@ -406,6 +406,29 @@ def bounded(tier, seed):
                             return 'IOAPI variable %s%r is not the requested hyperslab: %s' % (vk, tuple(v.dimensions), e)
                     return None
                 run.case('C02:ioapi sliceDimensions(%s)' % d, (boundary, d, repr(s_)), t)
+    # selectors given as numpy arrays, ONE array object shared by several dimensions (the `ROW=i, COL=i` idiom), negative entries:
+    # same result as with fresh python lists, in both keyword orders, and the caller's array is left alone
+    for si, spec in enumerate(specs[:3]):
+        f = H.make_file(P, spec)
+        lens = {d[0]: d[1] for d in spec['dims']}
+        for d1, d2 in itertools.permutations([d for d in lens if lens[d] >= 2], 2):
+            if lens[d1] == lens[d2]:
+                continue
+            for entries in ([-1, 0, -2], [0, -1], [-2, -2, 1, -1]):
+                def t(f=f, d1=d1, d2=d2, entries=entries):
+                    shared = np.array(entries)
+                    exp = f.sliceDimensions(**{d1: list(entries), d2: list(entries)})
+                    got = f.sliceDimensions(**{d1: shared, d2: shared})
+                    if not np.array_equal(shared, np.array(entries)):
+                        return 'the index array handed in by the caller was modified: %r -> %r' % (entries, shared.tolist())
+                    for vk in f.variables:
+                        if vk not in got.variables:
+                            return 'variable %s dropped' % vk
+                        e = H.arr_equal(got.variables[vk][...], exp.variables[vk][...])
+                        if e:
+                            return 'one array shared by %s and %s: variable %s differs from the selection with separate lists: %s' % (d1, d2, vk, e)
+                    return None
+                run.case('C02:sliceDimensions:one index array shared by two dimensions', (si, d1, d2, tuple(entries)), t)
     return run.result(
         rule='real sliceDimensions / slice_dim vs an independent orthogonal-selection oracle (numpy.take per axis, zipped lists along one new axis); '
              'every variable compared element-wise incl. masks, dimensions, attributes; inputs snapshotted',
